@@ -66,6 +66,20 @@ def make_case(rng, base, idx, multi):
            'new_searcher': True}
     nruns = rng.choice([1, 1, 2, 3])
     runs = [run] + [dict(run, new_searcher=False) for _ in range(nruns - 1)]
+    if not multi and rng.random() < 0.4:
+        # a history on ONE searcher: run on one file, register more paths,
+        # run again (the file list must be taken afresh on every run)
+        more = {}
+        for i in range(1, rng.choice([2, 3])):
+            data = G.gen_log(rng, rng.choice([3, 12, 40]))
+            more[f"f{i}.log"] = (data, None)
+            contents[f"f{i}.log"] = data
+        skrun.materialise(d, more)
+        extra = [[di, nm, True] for nm in more for di in range(len(defs))
+                 if rng.random() < 0.8] or [[0, list(more)[0], True]]
+        runs = [run, dict(run, new_searcher=False, extra_adds=extra)]
+        if rng.random() < 0.5:
+            runs.append(dict(run, new_searcher=False))
     recipe = {'dir': d, 'constraints': cons, 'defs': defs, 'runs': runs}
     if rng.random() < 0.5:
         # small thresholds: mid-file flushes and several batches per flush
@@ -74,7 +88,7 @@ def make_case(rng, base, idx, multi):
     return recipe, contents, restricted
 
 
-def expected_lines(recipe, contents, restricted, files):
+def expected_lines(recipe, contents, restricted, files, adds=None):
     """ lines read per file, by the independent reference """
     run = recipe['runs'][0]
     out = []
@@ -84,7 +98,8 @@ def expected_lines(recipe, contents, restricted, files):
             out.append(0)
             continue
         lines = G.split_lines(data)
-        on_file = {a[0] for a in run['adds'] if reaches(a[1], name)}
+        on_file = {a[0] for a in (adds if adds is not None else run['adds'])
+                   if reaches(a[1], name)}
         if run['global'] is not None and not (on_file & restricted):
             since = G.since_secs(recipe['constraints'][run['global']])
             pos = G.first_in_window(data, since)
@@ -129,7 +144,12 @@ def run(chk):
                 obs = r['obs']
             else:
                 obs = skrun.run_here(recipe)
+            adds_so_far = []
             for k, o in enumerate(obs):
+                rk = recipe['runs'][k]
+                adds_so_far = (list(rk['adds']) if rk.get('new_searcher', True)
+                               else adds_so_far) + list(rk.get('extra_adds')
+                                                        or [])
                 chk.coverage['evaluations'] += 1
                 if o['exc']:
                     chk.violation(f"unexpected-exception {o['exc']}",
@@ -137,10 +157,11 @@ def run(chk):
                     continue
                 files = o['files']
                 st = o['stats']
-                regs = [sum(1 for a in recipe['runs'][0]['adds']
+                regs = [sum(1 for a in adds_so_far
                             if reaches(a[1], f)) for f in files]
                 nres = [len(o['results'].get(f, [])) for f in files]
-                nlines = expected_lines(recipe, contents, restricted, files)
+                nlines = expected_lines(recipe, contents, restricted, files,
+                                        adds_so_far)
                 n = len(files)
                 spec = {'searches': sum(regs), 'searches_by_job': regs,
                         'lines_searched': sum(nlines),
@@ -174,6 +195,8 @@ def run(chk):
                 chk.dist('multi' if n > 1 else 'single')
                 if k > 0:
                     chk.dist('repeat_run')
+                if rk.get('extra_adds'):
+                    chk.dist('adds_between_runs')
             if idx in (0, nsingle):
                 chk.sample({'recipe': recipe_brief(recipe),
                             'stats': obs[0]['stats']})
